@@ -159,6 +159,7 @@ struct Options
 	bool reverse = false;
 	int scribble = 0;
 	bool verbose = false;
+	long long deadline_s = 0; // > 0: cases reached after this many seconds of wall-clock are generated but not run
 	std::map<std::string, std::string> extra;
 };
 
@@ -188,6 +189,10 @@ struct Ctx
 
 	int cur_fd = -1;
 	unsigned case_timeout = 120;
+	// wall-clock budget of the whole worker: a safety net under the case counts (which bound a campaign); running into
+	// it is reported (label not_run_time_budget, exhaustive = false) and never a violation
+	std::chrono::steady_clock::time_point started = std::chrono::steady_clock::now();
+	bool time_budget_hit = false;
 	std::function<Verdict(Case const&, Ctx&)> runner;
 
 	void label(std::string const& l, long long n = 1) { labels[l] += n; }
@@ -205,6 +210,8 @@ struct Ctx
 		std::string const txt = c.text();
 		std::uint64_t const d = digest(txt);
 		if (!skip.empty() && skip.count(d)) { ++skipped_known; return Verdict(); }
+		if (opt.deadline_s > 0 && !failed && std::chrono::steady_clock::now() - started > std::chrono::seconds(opt.deadline_s))
+		{ time_budget_hit = true; exhaustive = false; ++labels["not_run_time_budget"]; return Verdict(); }
 		set_current(txt);
 		++evaluations;
 		// watchdog: a case that does not finish within case_timeout seconds of wall-clock kills the worker (SIGALRM);
@@ -283,7 +290,7 @@ struct Ctx
 			" \"skipped_known\": %lld, \"ops_executed\": %lld, \"guards_skipped\": %lld, \"failures\": %lld,\n"
 			" \"exhaustive\": %s, \"exhaustive_note\": \"%s\",\n"
 			, json_escape(opt.prop).c_str(), opt.worker, evaluations, inconclusive, skipped_known
-			, ops_executed, guards_skipped, failures, exhaustive ? "true" : "false"
+			, ops_executed, guards_skipped, failures, (exhaustive && !time_budget_hit) ? "true" : "false"
 			, json_escape(exhaustive_note).c_str());
 		std::fprintf(f, " \"labels\": {");
 		bool first = true;
@@ -347,6 +354,7 @@ inline int kit_main(int argc, char** argv, Harness const& h)
 		else if (a == "--tier") o.tier = next();
 		else if (a == "--seed") o.seed = std::strtoull(next().c_str(), nullptr, 10);
 		else if (a == "--worker") o.worker = std::atoi(next().c_str());
+		else if (a == "--deadline") o.deadline_s = std::atoll(next().c_str());
 		else if (a == "--nworkers") o.nworkers = std::atoi(next().c_str());
 		else if (a == "--out") o.out = next();
 		else if (a == "--replay") o.replay = next();
